@@ -119,6 +119,16 @@ def pipeline_presence(cx, iid):
                             if _reaches_block(b, y, {s.bb for s in recvs}) and b.reach_exit_avoiding(Loc(y, -1), steps, _loop_exits(b, y)) is not None:
                                 inst.violation(b.path, "step skipped", "the normal branch of %s does not step the half connection" % fn.split("::")[-1])
             arm_call(flushfn, "HalfConnection::flush", r"HalfConnection::flush\(")
+        # the public entry points reach those helpers on every path
+        for fn, callees in (("client::Client::flush", ["Client::flush_if_active"]), ("server::Server::flush", ["Server::flush_active_clients"]),
+                            ("client::Client::step", ["Client::handle_frames", "Client::handle_events", "Client::step_if_active"]),
+                            ("server::Server::step", ["Server::handle_frames", "Server::handle_events", "Server::step_active_clients"])):
+            pb = R.body(fn)
+            for callee in callees:
+                ls = call_locs(pb, callee)
+                inst.site(pb, None, "%s -> %s: %d" % (fn.split("::", 1)[1], callee, len(ls)))
+                if len(ls) != 1 or pb.reach_exit_avoiding(Loc(0, -1), ls) is not None:
+                    inst.violation(pb.path, callee, "%s can return without calling %s" % (fn.split("::", 1)[1], callee))
         hf = R.body("half_connection::HalfConnection::flush")
         ef = call_locs(hf, "HalfConnection::emit_frames")
         inst.site(hf, None, "flush -> emit_frames: %d" % len(ef))
@@ -248,3 +258,253 @@ def leave_implies_terminal(cx, iid):
                                     extra.append(Loc(y, -1))
                 if b.reach_from_entry_avoiding(loc, terms + extra) is not None and b.reach_exit_avoiding(loc, terms, _loop_exits(b, loc.bb)) is not None:
                     inst.violation(b.path, "silent leave to " + v[:14], "a connection leaves to %s without Disconnect/Error being reported on some path" % v[:14], at=b.span_at(loc))
+
+
+def _id_walks(b):
+    """loops of the form `let mut id = <start>; while id != <end> { ...; id = packet_id::add(id, 1); ... }`
+    -> [(L, var, start, end)]"""
+    out = []
+    for L in b.loops():
+        h = L["header"]
+        t = b.term(h)
+        if t["k"] != "switch":
+            continue
+        m = re.fullmatch(r"ne\((.+),(var\d+)\)|ne\((var\d+),(.+)\)", show(b.operand_expr(t["op"])))
+        if not m:
+            continue
+        var, end = (m.group(2), m.group(1)) if m.group(2) else (m.group(3), m.group(4))
+        n = int(var[3:])
+        steps, inits = [], []
+        for loc, kind, node in b.defs.get(n, []):
+            v = show(b.rvalue_expr(node["rv"])) if kind == "assign" else show(b.call_expr(node))
+            (steps if loc.bb in L["body"] else inits).append((loc, v))
+        if len(steps) != 1 or steps[0][1] not in ("packet_id::add(%s,1)" % var, "packet_id::add(1,%s)" % var):
+            continue
+        # the step is taken on every iteration
+        from loops import cycle_avoiding
+        if cycle_avoiding(b, L, {steps[0][0].bb}) is not None:
+            continue
+        out.append((L, var, sorted({v for _, v in inits}), end))
+    return out
+
+
+def window_walks(cx, iid):
+    """T5/T2: when the receive window advances from base_id to new_base_id, *every* slot it passes is
+    released, unconditionally: the delivered-flag bit is cleared, the reassembly slot is cleared
+    (whatever state it is in: a half-received packet must not survive into the slot's next use) and
+    the channel markers are reconsidered.  A release that is conditional on the slot having produced
+    a packet leaves stale fragments behind for the id that maps to the same slot window_size later."""
+    R = cx.R
+    from loops import cycle_avoiding
+    with cx.instance(iid, "T5 LOOP + T2", "advance_window releases every slot in [base_id, new_base_id) on every iteration: entry flag, reassembly slot, channel markers", floor=3) as inst:
+        b = R.body("PacketReceiver::advance_window")
+        walks = _id_walks(b)
+        need = {"entry flag cleared": None, "AssemblyWindow::clear": None, "try_unset_channel_base_id": None}
+        for L, var, inits, end in walks:
+            if inits != ["arg1.base_id"] or end != "arg2":
+                continue
+            IDX = r"cast<usize>\(bitand\((arg1\.receive_window_mask,%s|%s,arg1\.receive_window_mask)\)\)" % (var, var)
+            acts = []
+            for l, t in b.calls():
+                if l.bb not in L["body"]:
+                    continue
+                s = show(b.call_expr(t))
+                if re.fullmatch(r"AssemblyWindow::clear\(arg1\.assembly_window,%s\)" % IDX, s):
+                    acts.append(("AssemblyWindow::clear", l))
+                if re.fullmatch(r"PacketReceiver::try_unset_channel_base_id\(arg1,%s\)" % var, s):
+                    # the walk visits id+1 .. new_base: the call comes after the step
+                    acts.append(("try_unset_channel_base_id", l))
+            for l, node, ps in b.field_writes(r"arg1\.entry_flags\[div\(%s,64\)\]" % IDX):
+                if l.bb in L["body"] and node["k"] == "assign":
+                    v = show(b.rvalue_expr(node["rv"]))
+                    if re.fullmatch(r"bitand\((arg1\.entry_flags\[div\(%s,64\)\],not\(shl\(1,rem\(%s,64\)\)\)|not\(shl\(1,rem\(%s,64\)\)\),arg1\.entry_flags\[div\(%s,64\)\])\)" % (IDX, IDX, IDX, IDX), v):
+                        acts.append(("entry flag cleared", l))
+            for name, l in acts:
+                every = cycle_avoiding(b, L, {l.bb}) is None
+                inst.site(b, l, "%s for each id in [base_id, new_base_id)%s" % (name, "" if every else " — NOT on every iteration"))
+                if every or name == "entry flag cleared":
+                    # (clearing the delivered flag only where it is set is the same thing: presence in the walk is what is required)
+                    need[name] = l
+                else:
+                    inst.violation(b.path, name + " conditional", "`%s` is skipped on some iterations of the advance loop: a slot the window passes is not released" % name, at=b.span_at(l))
+        for name, l in need.items():
+            if l is None:
+                inst.violation(b.path, name, "advance_window has no loop over [base_id, new_base_id) that performs `%s` on every iteration" % name)
+        # base_id is moved only after the walks
+        ws = [l for l, node, ps in b.field_writes(r"arg1\.base_id")]
+        if len(ws) != 1:
+            inst.violation(b.path, "base_id write", "advance_window writes base_id at %d sites" % len(ws))
+        # end_id never falls behind the base: a jump past end_id (resynchronisation) pulls end_id up to the new
+        # base, otherwise receive() would walk `while id != end_id` almost once around the id space over
+        # slots that belong to other ids
+        fa = cx.fa(b)
+        ends = [(l, show(b.rvalue_expr(node["rv"]))) for l, node, ps in b.field_writes(r"arg1\.end_id") if node["k"] == "assign"]
+        keep = []
+        for (bb, y, lab), lits in fa.edge_lits.items():
+            if any(re.fullmatch(r"le\(packet_id::sub\(arg2,arg1\.base_id\),packet_id::sub\(arg1\.end_id,arg1\.base_id\)\)", x) for x in lits):
+                keep.append(Loc(y, -1))
+        for l, v in ends:
+            inst.site(b, l, "end_id = " + v)
+            if v != "arg2":
+                inst.violation(b.path, "end_id value", "advance_window sets end_id = `%s`, expected the new base" % v, at=b.span_at(l))
+        if ws:
+            w = b.reach_from_entry_avoiding(ws[0], [l for l, _ in ends] + keep)
+            if w is not None:
+                inst.violation(b.path, "end_id left behind", "base_id can move past end_id without end_id being pulled up to the new base", at=b.span_at(ws[0]), detail={"offending_path": b.path_spans(w)[:12]})
+
+
+def sync_refusal_exact(cx, iid):
+    """T1x: the sync/keepalive frame is refused for lack of credit only when the credit is negative.
+    fill_flush_alloc caps the credit at rate*rtt, which is 0 until the first RTT sample: an endpoint that
+    also refuses at credit == 0 never sends a keepalive (or a resynchronising sync) before its first
+    acknowledged data frame, and an idle connection then times out on a loss-free link."""
+    R = cx.R
+    with cx.instance(iid, "T1x EXACT-GUARD", "emit_sync_frame gives up for lack of credit only under flush_alloc < 0 (credit 0 must still send)", floor=1) as inst:
+        b = R.body("HalfConnection::emit_sync_frame")
+        fa = cx.fa(b)
+        errs = [loc for loc, kind, node in b.defs.get(0, []) if kind == "assign" and show(b.rvalue_expr(node["rv"])).startswith("Err{")]
+        for loc in errs:
+            inst.site(b, loc, "return Err(()) (out of credit)")
+            g, bad = dnf_holds(fa.at(loc), [[r"lt\(arg1\.flush_alloc,0\)"]])
+            if not g:
+                inst.violation(b.path, "credit refusal", "emit_sync_frame refuses to send on a path where the credit is not negative", at=b.span_at(loc), detail={"facts_on_offending_path": sorted(bad)[:8] if bad else []})
+        if not errs:
+            inst.note("emit_sync_frame has no refusing exit")
+
+
+def half_connection_clock(cx, iid):
+    """T2/T7: HalfConnection::step is where the connection's clock, RTT and RTO reach the state that
+    flush() later acts on.  If `now_ms` is not stored the resend deadlines (now >= resend_time) never
+    come due and nothing lost is ever retransmitted; if time_last_flushed is not stored the send credit
+    is never refilled and the connection stops sending after its first burst."""
+    R = cx.R
+    HC = "half_connection::HalfConnection::"
+    with cx.instance(iid, "T2 PAIR (stores) + T7", "step() stores now_ms / rtt_ms / rto_ms from the clock and the rate computer, refills the credit (which records the refill time), bumps flush_id and steps the rate computer with the frame queue's feedback; flush() hands exactly these to emit_frames", floor=9) as inst:
+        b = R.body(HC + "step")
+        NOW = r"cast<u64>\(Duration::as_millis\(Instant::sub\(Instant::now\(\),arg1\.time_base\)\)\)"
+        want = {
+            "now_ms": NOW,
+            "rtt_ms": r"Option::unwrap_or\(SendRateComp::rtt_ms\(arg1\.send_rate_comp\),half_connection::INITIAL_RTT_ESTIMATE_MS\)",
+            "rto_ms": r"Option::unwrap_or\(SendRateComp::rto_ms\(arg1\.send_rate_comp\),half_connection::INITIAL_RTO_ESTIMATE_MS\)",
+            "flush_id": r"u32::wrapping_add\((arg1\.flush_id,1|1,arg1\.flush_id)\)",
+        }
+        for fld, rx in want.items():
+            ws = [(l, show(b.rvalue_expr(n["rv"])) if n["k"] == "assign" else show(b.call_expr(n))) for l, n, ps in b.field_writes(r"arg1\." + fld)]
+            for l, v in ws:
+                inst.site(b, l, "%s = %s" % (fld, v[:90]))
+                if not re.fullmatch(rx, v):
+                    inst.violation(b.path, fld + " value", "step() stores %s = `%s`" % (fld, v[:160]), at=b.span_at(l))
+            cx.followed_by(inst, b, [(Loc(0, -1), "entry of step()")], [l for l, _ in ws], fld + " not stored", "self.%s = ..." % fld)
+        for callee, rx in (("HalfConnection::fill_flush_alloc", r"HalfConnection::fill_flush_alloc\(arg1,Instant::now\(\)\)"),
+                           ("SendRateComp::step", r"SendRateComp::step\(arg1\.send_rate_comp,%s,FrameQueue::get_feedback\(arg1\.frame_queue,%s\),closure:.*\)" % (NOW, NOW)),
+                           ("FrameQueue::forget_frames", r"FrameQueue::forget_frames\(arg1\.frame_queue,.*\)")):
+            cs = [(l, show(b.call_expr(t))) for l, t in b.calls(callee)]
+            for l, v in cs:
+                inst.site(b, l, callee)
+                if not re.fullmatch(rx, v):
+                    inst.violation(b.path, callee + " arguments", "step() calls `%s`" % v[:200], at=b.span_at(l))
+            cx.followed_by(inst, b, [(Loc(0, -1), "entry of step()")], [l for l, _ in cs], callee + " skipped", callee)
+        # the loss-rate reset requested by the rate computer reaches the frame queue
+        cl = [R.body(c) if isinstance(c, str) else c for c in R.closures_of(b.path)]
+        ok = any(call_sites(c, "FrameQueue::reset_loss_rate") for c in cl)
+        inst.site(b, None, "reset_loss_rate closure forwards to FrameQueue::reset_loss_rate: %s" % ok)
+        if not ok:
+            inst.violation(b.path, "reset_loss_rate closure", "the closure given to SendRateComp::step no longer forwards the new loss rate to the frame queue")
+        f = R.body(HC + "flush")
+        cs = [show(f.call_expr(t)) for l, t in f.calls("HalfConnection::emit_frames")]
+        inst.site(f, None, "flush -> %s" % cs)
+        if cs != ["HalfConnection::emit_frames(arg1,arg1.now_ms,arg1.rtt_ms,arg1.rto_ms,arg1.flush_id,arg2)"]:
+            inst.violation(f.path, "emit_frames arguments", "flush() calls %s" % cs)
+        ff = R.body(HC + "fill_flush_alloc")
+        ws = [(l, show(ff.rvalue_expr(n["rv"]))) for l, n, ps in ff.field_writes(r"arg1\.time_last_flushed") if n["k"] == "assign"]
+        for l, v in ws:
+            inst.site(ff, l, "time_last_flushed = " + v)
+            if v != "Some{arg2}":
+                inst.violation(ff.path, "time_last_flushed value", "fill_flush_alloc records `%s`" % v, at=ff.span_at(l))
+        cx.followed_by(inst, ff, [(Loc(0, -1), "entry of fill_flush_alloc")], [l for l, _ in ws], "refill time not recorded", "time_last_flushed = Some(now)")
+
+
+def advertised_limits(cx, inst, fields):
+    """T7: what an endpoint advertises in its SYN / SYN-ACK is its configured limit (saturated to u32):
+    the peer clamps its rate / packet sizes / outstanding bytes to the advertised numbers, so an
+    advertisement that is not the configured value voids the limit the application asked for"""
+    R = cx.R
+    for fn, adt in (("client::Client::connect", "HandshakeSynFrame"), ("server::Server::handle_handshake_syn", "HandshakeSynAckFrame")):
+        bb = R.body(fn)
+        hit = False
+        for loc, s in bb.assigns():
+            rv = s["rv"]
+            if rv["k"] == "agg" and rv.get("adt", "").endswith(adt):
+                hit = True
+                for f in fields:
+                    v = show(bb.operand_expr(rv["ops"][rv["fields"].index(f)]))
+                    inst.site(bb, loc, "%s.%s = %s" % (adt, f, v[:90]))
+                    if not re.fullmatch(r"cast<u32>\(Ord::min\((.*\.endpoint_config\.%s,cast<usize>\(core::num::<impl u32>::MAX\)|cast<usize>\(core::num::<impl u32>::MAX\),.*\.endpoint_config\.%s)\)\)" % (f, f), v):
+                        inst.violation(bb.path, "advertised " + f, "the advertised %s is `%s`, not the configured one" % (f, v[:120]), at=bb.span_at(loc))
+        if not hit:
+            inst.violation(bb.path, adt, "%s literal not found (anchor)" % adt)
+
+
+def emitter_no_abandon(cx, iid):
+    """T2: a frame under construction in an emitter is never abandoned.  The fragments in it have already
+    left the pending queue, so a frame that is dropped instead of finalised loses them: Unreliable and
+    TimeSensitive fragments for good, resendable ones until their resend timer.  Rules:
+      (1) in {Data,Ack}FrameEmitter::push, an Err return and the start of a new frame are reached only with
+          no frame in progress — via the None arm of `in_progress_frame` or after finalize();
+      (2) in emit_data_frames / emit_ack_frames, after a push every path to a normal return passes another
+          push (whose Err returns are covered by (1)) or the emitter's finalize()."""
+    R = cx.R
+    with cx.instance(iid, "T2 PAIR (no abandoned frame)", "emitters: Err returns and new frames only with no frame in progress (None arm or after finalize); emit_*_frames finalises after its last push", floor=8) as inst:
+        for fn, fin, newpat in (("DataFrameEmitter::push", "DataFrameEmitter::finalize", "DataFrameBuilder::new"), ("AckFrameEmitter::push", "AckFrameEmitter::finalize", "AckFrameBuilder::new"), ("AckFrameEmitter::push_dud", "AckFrameEmitter::finalize", "AckFrameBuilder::new")):
+            b = R.body(fn)
+            fa = cx.fa(b)
+            fins = [l for l, t in b.calls(fin)]
+            none_blocks = []
+            for (bb, y, lab), lits in fa.edge_lits.items():
+                if "is(arg1.in_progress_frame,None)" in lits:
+                    none_blocks.append(Loc(y, 0))
+            # Option::is_some(in_progress_frame) tests (push_dud)
+            for (bb, y, lab), lits in fa.edge_lits.items():
+                if any(re.fullmatch(r"is\(arg1\.in_progress_frame,None\)", l) for l in lits) and Loc(y, 0) not in none_blocks:
+                    none_blocks.append(Loc(y, 0))
+            sinks = [(loc, "return Err") for loc, kind, node in b.defs.get(0, []) if kind == "assign" and show(b.rvalue_expr(node["rv"])).startswith("Err{")]
+            sinks += [(l, newpat) for l, t in b.calls(newpat)]
+            for loc, lab in sinks:
+                inst.site(b, loc, "%s: %s" % (fn, lab))
+                # entering the None arm or calling finalize() both establish "no frame in progress";
+                # Loc(y, 0) of a None-arm block blocks paths through that block (idx 0 < anything later)
+                blockers = list(fins) + [Loc(l.bb, -1) for l in none_blocks]
+                if loc.bb in {l.bb for l in none_blocks}:
+                    continue
+                w = b.reach_from_entry_avoiding(loc, blockers)
+                if w is not None:
+                    # push_dud returns early when a frame IS in progress (nothing to do, frame kept): not an abandon
+                    facts = fa.at(loc) or []
+                    if fn.endswith("push_dud") and lab == "return Err":
+                        pass
+                    inst.violation(b.path, lab + " with a frame in progress", "`%s` is reachable while a frame is under construction, without finalize(): the frame's fragments are dropped" % lab, at=b.span_at(loc), detail={"offending_path": b.path_spans(w)[:16]})
+        for fn, em, fin in (("half_connection::HalfConnection::emit_data_frames", "DataFrameEmitter::push", "DataFrameEmitter::finalize"), ("half_connection::HalfConnection::emit_ack_frames", "re:AckFrameEmitter::push(_dud)?$", "AckFrameEmitter::finalize")):
+            b = R.body(fn)
+            pushes = [(l, R.short(t["fn"])) for l, t in b.calls(em)]
+            fins = [l for l, t in b.calls(fin)]
+            if not pushes or not fins:
+                inst.violation(b.path, "emitter calls", "%s: expected push and finalize calls (anchor): %d / %d" % (fn.split("::")[-1], len(pushes), len(fins)))
+                continue
+            for l in fins:
+                inst.site(b, l, fin)
+            # Err results of push lead to `return` directly: they are exempt because (1) guarantees the frame was finalised.
+            # The Ok continuation must reach finalize or another push.
+            for l, lab in pushes:
+                # blocks where the result is known Err: exits that are fine
+                w = b.reach_exit_avoiding(l, fins + [p for p, _ in pushes if p != l])
+                if w is not None:
+                    # accept the path if it runs through an edge that matched the push result against Err
+                    fa = cx.fa(b)
+                    okp = False
+                    for i in range(len(w) - 1):
+                        for (bb, y, lb), lits in fa.edge_lits.items():
+                            if bb == w[i] and y == w[i + 1] and any(re.search(r"is\(.*(push|push_dud)\(.*\),Err\)", x) for x in lits):
+                                okp = True
+                    if not okp:
+                        inst.violation(b.path, lab + " not followed by finalize", "after a successful `%s` the function can return without finalising the emitter: the frame under construction is dropped" % lab, at=b.span_at(l), detail={"offending_path": b.path_spans(w)[:16]})
+                inst.site(b, l, lab)
